@@ -1859,9 +1859,15 @@ def oracle(ctx, kern, plan, info, real):
                 ctx.known("F43", "pf on OpenBSD/Darwin with 'set skip on lo': the main ruleset is replaced by 'match/pass on lo' during set-up and never restored")
                 ctx.violation("pf: the main ruleset was replaced during set-up and is not restored (set skip on lo)",
                               dict(rep, finding_id="F43", main_before=[hx(t) for t in a["main"]][:6], main_after=[hx(t) for t in b["main"]][:6]))
-            elif pf_identity(plan, s0, fin, rep, ctx):
-                ctx.violation("set-up + tear-down is not the identity on the packet-filter state (%s)" % plan.method,
-                              dict(rep, final=real["final"][:600]))
+            else:
+                nv = len(ctx.violations)
+                pf_identity(plan, s0, fin, rep, ctx)            # reports the F17 shape under its own name
+                if len(ctx.violations) == nv:
+                    pa, pb = s0["pf"], fin["pf"]
+                    ctx.violation("set-up + tear-down is not the identity on the packet-filter state (%s)" % plan.method,
+                                  dict(rep, final=real["final"][:600],
+                                       pf_enabled_before=pa["on"], pf_enabled_after=pb["on"],
+                                       pf_loaded_before=pa["loaded"], pf_loaded_after=pb["loaded"]))
         return
     # ---- a tear-down command failed
     tr = real["trace"]
